@@ -5,7 +5,7 @@ import ast
 from fractions import Fraction
 
 from ..absint import Interp, State
-from ..forms import Const, Form, fpow, mk_fn
+from ..forms import Const, Form, SliceV, fpow, mk_fn
 from ..rules import (PI, S, body_nodes, find_raise_guards, interp_returns, names_in, single_return)
 from ..srcmodel import src_of
 
@@ -287,6 +287,20 @@ def rule_dec2bin(ctx):
                           base={digits: Form.num(d)}, integer=True)
     loop = next((n for n in fi.node.body if isinstance(n, (ast.While, ast.For))), None)
     if loop is None:
+        # or the closed form: bit i (most significant first) of num is (num >> (digits-1-i)) & 1
+        it_ = Interp(pkg)
+        it_.keep_astype = True
+        rets_ = [o for o in it_.run(fi) if o.kind == "return"]
+        shifts = Form.atom(("idx", mk_fn("arange", [S(digits)]), SliceV(Const(None), Const(None), Form.num(-1))))
+        bits_ = mk_fn("band", [mk_fn("rshift", [S(num), shifts]), Form.num(1)])
+        got_ = rets_[0].value if len(rets_) == 1 else None
+        ga_ = got_.single_atom() if isinstance(got_, Form) else None
+        if ga_ and ga_[0] == "fn" and ga_[1] == "astype" and ga_[2] and isinstance(ga_[2][0], Form):
+            got_ = ga_[2][0]           # cast of 0/1 values to the output dtype
+        if isinstance(got_, Form) and got_ == bits_:
+            ctx.holds("C19.5", fi, rets_[0].node, "dec2bin = (num >> arange(digits)[::-1]) & 1", "big-endian bits by shift and mask")
+            ctx.holds("C19.5", fi, rets_[0].node, "dec2bin: most significant bit first", "shift counts digits-1 ... 0")
+            return
         ctx.unknown("C19.5", fi, fi.node, "dec2bin loop", "conversion loop not found")
         return
     # loop: bits[i] = num % 2 ; num //= 2, with i running from digits-1 downward (explicit counter or reversed range)
